@@ -48,6 +48,7 @@ type typesMap struct {
 	generated  map[string]bool
 	funcToTyps map[string][]types.Type
 	typss      [][]types.Type
+	names      []string
 	reserved   map[string]struct{}
 	autoname   bool
 	dedup      bool
@@ -129,6 +130,7 @@ func (tm *typesMap) SetFuncName(funcName string, typs ...types.Type) (string, er
 	}
 	tm.funcToTyps[funcName] = typs
 	tm.typss = append(tm.typss, typs)
+	tm.names = append(tm.names, funcName)
 	return funcName, nil
 }
 
@@ -196,12 +198,32 @@ func (tm *typesMap) nameOf(typs []types.Type) (string, bool) {
 			}
 		}
 	}
-	for name, ts := range tm.funcToTyps {
+	// The functions are searched in the order in which they were registered, and a function for
+	// exactly these types is preferred over one for types they are merely assignable to, so that the
+	// answer does not depend on map iteration order when several functions match.
+	for i, ts := range tm.typss {
+		if identical(typs, ts) {
+			return tm.names[i], true
+		}
+	}
+	for i, ts := range tm.typss {
 		if eq(typs, ts) {
-			return name, true
+			return tm.names[i], true
 		}
 	}
 	return "", false
+}
+
+func identical(this, that []types.Type) bool {
+	if len(this) != len(that) {
+		return false
+	}
+	for i, t := range this {
+		if !types.Identical(types.Default(t), types.Default(that[i])) {
+			return false
+		}
+	}
+	return true
 }
 
 func (tm *typesMap) Generating(typs ...types.Type) {
